@@ -99,11 +99,24 @@ def census():
              "maybe_refresh_request = self.refresh_channel.recv(), if !full_fetch_in_flight => {"),
             ("a received request is stored and makes a full fetch owed", "self.set_pending_request(request); plan.note_full_needed();"),
             ("publish_metadata attaches the pending request", "let response_chan = self .pending_request .take() .map(|request| request.response_chan);"),
+            ("starting the full fetch ends the starter step",
+             "*self = PendingFetches::Full { fetch: Box::pin(cc.query_metadata()), }; return; }"),
+            ("a TOPOLOGY_CHANGE event owes a partial topology fetch", "Event::TopologyChange(_) => plan.note_topology(),"),
+            ("a CLIENT_ROUTES_CHANGE event owes a partial client-routes fetch", "plan.note_client_routes(ClientRoutesFetchRequest { pairs })"),
+            ("a schema event owes nothing", "Event::SchemaChange(_) => (),"),
             ("a failed establishment answers the pending request with the error",
              "if let Some(request) = self.pending_request.take() { // We can ignore sending error - if no one waits for the response we can drop it let _ = request.response_chan.send(Err(err)); }"),
         ]:
             if frag not in norm:
                 bad.append("metadata worker changed (%s)" % what)
+        # a failed partial fetch (topology / client routes) owes a full fetch; a status change also owes a topology re-read
+        for arm in ("FetchOutcome::Topology(Err(err))", "FetchOutcome::ClientRoutes(Err(err))"):
+            m = re.search(re.escape(arm) + r" => \{(.*?)(?=FetchOutcome::|\n {16}\}\n)", wk, re.S)
+            if not m or "plan.note_full_needed();" not in m.group(1):
+                bad.append("metadata worker changed (%s no longer owes a full fetch)" % arm)
+        m = re.search(r"Event::StatusChange\(status\) => \{(.*?)_ => unreachable!", wk, re.S)
+        if not m or not m.group(1).rstrip().rstrip("}").rstrip().endswith("plan.note_topology();"):
+            bad.append("metadata worker changed (a status change no longer owes a topology re-read)")
         if len(re.findall(r"FetchOutcome::Full\(Err\(err\)\) => \{.*?return ControlFlow::Continue\(\(\)\);", wk, re.S)) != 1:
             bad.append("metadata worker changed (a failed full fetch gives up the control connection)")
     except OSError as e:
@@ -125,7 +138,7 @@ def post(lines, verdicts):
                     % (len(env), len(e2e), env[0].split("|", 1)[1].strip()[:80])))
     # per-kind floors: the evidence must not claim what was not exercised
     # the runner emits 5 S and 21 Z cases in the quick tier for every seed; up to 3 skip-env are tolerated above
-    floors = {"X": 100000, "Y": 50000, "U": 100000, "Q": 1000, "S": 2, "Z": 14, "F": 6000}
+    floors = {"X": 100000, "Y": 50000, "U": 100000, "Q": 1000, "S": 2, "Z": 14, "F": 6000}  # F: 3^8 + 11 = 6572 generated, seed-independent
     for k, n in floors.items():
         have = [ln for ln in _kind(lines, k) if "| skip-env" not in ln]
         if len(have) < n:
@@ -154,6 +167,15 @@ def post(lines, verdicts):
                   and all(len(t.split("/")) == 7 and int(t.split("/")[6], 16) & 2 == 0 for t in ln.split("|", 1)[1].strip().split(",")))
     if failing < 1:
         out.append(("diff", "Z", "diff tie not exercised: %d failing-fetch scenarios" % failing))
+    shrunk = 0
+    for ln in _kind(lines, "Z"):
+        f = ln.split("|")[0].split()
+        if len(f) == 5 and f[4] == "0" and "| skip-env" not in ln:
+            t = [x.split("/") for x in ln.split("|", 1)[1].strip().split(",")]
+            if len(t) >= 2 and all(len(x) == 7 for x in t) and int(t[-1][3], 16) < int(t[-2][3], 16) and t[-1][3] == t[-1][4]:
+                shrunk += 1
+    if shrunk < 2:
+        out.append(("diff", "Z", "diff tie not exercised: %d scenarios in which a node was removed and the published state shrank" % shrunk))
     loop3 = sum(1 for ln in _kind(lines, "Z") if ln.split("|")[0].split()[-1] == "3" and "| skip-env" not in ln)
     if loop3 < 1:
         out.append(("diff", "Z", "diff tie not exercised: %d select-loop scenarios (use_keyspace + refresh)" % loop3))
@@ -198,14 +220,16 @@ SPEC = {
              "status_ok / latest_peers decide viol. S = two OS threads, producer merges tags 0..n-1 then drops, consumer receives until "
              "None (4 modes incl. permanent cancel/restart), extracted stress_ok; no consumer progress for 30 s after the producer "
              "finished (or 300 s in total) = attempt failed: repeated once, one failure = skip-env, two = viol. Z = end-to-end on "
-             "mocknode, each scenario adds a node per round and issues refresh_metadata calls: mode 0 1/4/16 concurrent; mode 1 four "
+             "mocknode, each scenario adds a node per round and issues refresh_metadata calls: mode 0 1/4/16 concurrent, its last round "
+             "REMOVES the node added last instead (the session's node count must shrink to the mock's); mode 1 four "
              "staged refreshes while a slow AddressTranslator keeps the cluster worker busy; mode 2 the next 1..3 metadata reads fail "
              "(error reply / connection cut) while 1/3/6 refreshes are pending - every refresh must be answered (Ok or Err), then one more "
              "must succeed; mode 3 use_keyspace calls alternate with refreshes under a busy worker; judged: every call returned, the "
              "session shows the mock's node count; a scenario with an unexpected outcome is repeated once and the repetition is judged; "
              "set-up failures = skip-env (tolerated up to max(3, 2%)). F = the metadata worker's REAL FetchPlan bookkeeping (hook "
              "verif_fetch_plan) on every script over {note_full_needed, note_topology, note_client_routes} of length 8 (thorough 10) and one "
-             "REAL poll of PendingFetches for all 27 slot configurations (absent / in flight / complete per slot), compared exactly with "
+             "REAL poll of PendingFetches for the 11 distinct slot configurations (9 of the Partial variant: absent / in flight / complete per "
+             "slot; 2 of the Full variant), compared exactly with "
              "Model/FetchPlan.v (note_*, resolve); the model's starter step and worker transitions are proved about and pinned by a census, "
              "not tied. non-trivial = X/Y/Q scripts with a poll and a merge, all U/S/Z "
              "cases that ran; distinct = distinct case lines"),
